@@ -49,6 +49,8 @@ pub struct WireState {
     pub send_fails: bool,
     pub recv_waker: Option<Waker>,
     pub send_gate_closed: bool,
+    /// `Some(k)`: only k more sends may complete, further ones stay pending (engine D)
+    pub send_credits: Option<usize>,
     pub send_waker: Option<Waker>,
     /// (task id, message) for every message handed to the client
     pub recv_log: Vec<(usize, Bytes)>,
@@ -111,6 +113,24 @@ impl Wire {
             w.wake();
         }
     }
+    /// `None` = unlimited; `Some(k)` = k more sends may complete
+    pub fn set_send_credits(&self, credits: Option<usize>) {
+        let waker = {
+            let mut st = self.state.lock().unwrap();
+            st.send_credits = credits;
+            if credits == Some(0) {
+                None
+            } else {
+                st.send_waker.take()
+            }
+        };
+        if let Some(w) = waker {
+            w.wake();
+        }
+    }
+    pub fn send_waiting(&self) -> bool {
+        self.state.lock().unwrap().send_waker.is_some()
+    }
     pub fn sent(&self) -> Vec<Bytes> {
         self.state.lock().unwrap().sent.clone()
     }
@@ -163,9 +183,12 @@ impl SendHandle for MemSender {
             let waker;
             {
                 let mut st = wire.state.lock().unwrap();
-                if st.send_gate_closed {
+                if st.send_gate_closed || st.send_credits == Some(0) {
                     st.send_waker = Some(cx.waker().clone());
                     return Poll::Pending;
+                }
+                if let Some(k) = st.send_credits.as_mut() {
+                    *k -= 1;
                 }
                 if st.send_fails || st.closed {
                     return Poll::Ready(Err(io_err(
